@@ -124,8 +124,8 @@ class Check(PropertyCheck):
             "abstract attributes (timestamp, method/op-code, url/address/name, size, mark, error, response) from small pools so "
             "that keys tie and filter verdicts flip; thorough adds all sequences of <=3 operations over 2 flows from a 14-op "
             "alphabet. distinct = distinct observable trace; non-trivial = view non-empty at some point.")
-    budget = {"quick": 1200, "thorough": 100000}
-    time_budget = {"quick": 22, "thorough": 600}
+    budget = {"quick": 1200, "thorough": 70000}
+    time_budget = {"quick": 22, "thorough": 420}
     fingerprints = ["mitmproxy.addons.view:View", "mitmproxy.addons.view:Focus", "mitmproxy.addons.view:Settings",
                     "mitmproxy.addons.view:_OrderKey", "mitmproxy.addons.view:OrderRequestStart",
                     "mitmproxy.addons.view:OrderRequestMethod", "mitmproxy.addons.view:OrderRequestURL",
